@@ -245,3 +245,17 @@ Theorem C10_built_default_is_batched : forall (w : world) (prngkey : Z -> key) v
   W_run_built w ei = W_run_batched w v root nch jit a.
 Proof. exact W_built_default_is_batched. Qed.
 Print Assumptions C10_built_default_is_batched.
+
+(* Engine.__init__: init_state of kernel i in chain c is handed chain c's OWN initial model state after the
+   configured jitter (not another chain's), with the key split (split k_c 2 1) nker i of chain c's key *)
+Theorem C10_init_state_sees_own_start : forall (w : world) root nch jit c ms,
+  let s0 := init_chain (w_mstate w) (w_kstate w) (w_pos w) (w_info w) (w_tinfo w) (w_quant w)
+              (w_jitter_apply w) root nch jit c ms in
+  let s1 := exec_op _ _ _ _ _ _ (w_extract w) (w_k_init w) (w_k_start w) (w_k_trans w) (w_k_end w) (w_k_tune w)
+              (w_k_endwarmup w) (w_q_gen w) (w_p w) (w_sched w) (w_needs_hist w) OInit s0 in
+  m_ks _ _ _ _ _ _ (mach_ _ _ _ _ _ _ s1)
+  = map (fun i => w_k_init w i (split (split (chain_key root nch c) 2 1) (nker (w_p w)) i)
+                            (W_jittered w root nch jit c ms)) (seq 0 (nker (w_p w)))
+  /\ m_ms _ _ _ _ _ _ (mach_ _ _ _ _ _ _ s1) = W_jittered w root nch jit c ms.
+Proof. exact W_init_state_sees_own_start. Qed.
+Print Assumptions C10_init_state_sees_own_start.
